@@ -570,3 +570,116 @@ pub fn gen_constant_expr(src: &mut Src, d: usize) -> RefExpr {
         }
     }
 }
+
+/// Replace one sub-expression X, at a position where any expression may stand,
+/// by an equivalent spelling with a different tree: `X | @`, `@ | X`,
+/// `not_null(X)`, `X || X`, `X && X`.  Under the value semantics of the
+/// language the result of the whole expression is unchanged; an evaluator that
+/// special-cases shapes of neighbouring nodes sees a different shape.
+/// Returns the rewritten tree and a label, or None when no position was chosen.
+pub fn rewrite_somewhere(e: &RefExpr, src: &mut Src) -> Option<(RefExpr, &'static str)> {
+    fn count(e: &RefExpr) -> usize {
+        let mut n = 0;
+        visit(e, true, &mut |_, ok| {
+            if ok {
+                n += 1;
+            }
+        });
+        n
+    }
+    // visit every node with the flag "any expression may stand here"
+    fn visit(e: &RefExpr, here: bool, f: &mut dyn FnMut(&RefExpr, bool)) {
+        use RefExpr::*;
+        f(e, here && !matches!(e, Expref(_)));
+        match e {
+            Current | Field(_) | Literal(_) => {}
+            Index(s, _) => {
+                if let Some(s) = s {
+                    visit(s, true, f);
+                }
+            }
+            Dot(a, b2) => {
+                visit(a, true, f);
+                visit(b2, false, f);
+            }
+            Pipe(a, b2) | Or(a, b2) | And(a, b2) | Cmp(_, a, b2) => {
+                visit(a, true, f);
+                visit(b2, true, f);
+            }
+            Not(a) => visit(a, true, f),
+            Expref(a) => visit(a, true, f),
+            Proj { kind, subject, rhs } => {
+                if let Some(s) = subject {
+                    visit(s, true, f);
+                }
+                if let ProjKind::Filter(p) = kind {
+                    visit(p, true, f);
+                }
+                visit(rhs, false, f);
+            }
+            MultiList(es) => {
+                for x in es {
+                    visit(x, true, f);
+                }
+            }
+            MultiHash(kvs) => {
+                for (_, x) in kvs {
+                    visit(x, true, f);
+                }
+            }
+            Call(_, args) => {
+                for x in args {
+                    visit(x, true, f);
+                }
+            }
+        }
+    }
+    fn apply(e: &RefExpr, here: bool, target: &mut isize, how: usize) -> RefExpr {
+        use RefExpr::*;
+        let ok = here && !matches!(e, Expref(_));
+        if ok {
+            *target -= 1;
+            if *target == -1 {
+                let x = e.clone();
+                return match how {
+                    0 => Pipe(b(x), b(Current)),
+                    1 => Pipe(b(Current), b(x)),
+                    2 => Call("not_null".into(), vec![x]),
+                    3 => Or(b(x.clone()), b(x)),
+                    _ => And(b(x.clone()), b(x)),
+                };
+            }
+        }
+        match e {
+            Current | Field(_) | Literal(_) => e.clone(),
+            Index(s, n) => Index(s.as_ref().map(|s| b(apply(s, true, target, how))), *n),
+            Dot(a, c) => Dot(b(apply(a, true, target, how)), b(apply(c, false, target, how))),
+            Pipe(a, c) => Pipe(b(apply(a, true, target, how)), b(apply(c, true, target, how))),
+            Or(a, c) => Or(b(apply(a, true, target, how)), b(apply(c, true, target, how))),
+            And(a, c) => And(b(apply(a, true, target, how)), b(apply(c, true, target, how))),
+            Cmp(o, a, c) => Cmp(*o, b(apply(a, true, target, how)), b(apply(c, true, target, how))),
+            Not(a) => Not(b(apply(a, true, target, how))),
+            Expref(a) => Expref(b(apply(a, true, target, how))),
+            Proj { kind, subject, rhs } => {
+                let subject = subject.as_ref().map(|s| b(apply(s, true, target, how)));
+                let kind = match kind {
+                    ProjKind::Filter(p) => ProjKind::Filter(b(apply(p, true, target, how))),
+                    other => other.clone(),
+                };
+                let rhs = b(apply(rhs, false, target, how));
+                Proj { kind, subject, rhs }
+            }
+            MultiList(es) => MultiList(es.iter().map(|x| apply(x, true, target, how)).collect()),
+            MultiHash(kvs) => MultiHash(kvs.iter().map(|(k, x)| (k.clone(), apply(x, true, target, how))).collect()),
+            Call(n, args) => Call(n.clone(), args.iter().map(|x| apply(x, true, target, how)).collect()),
+        }
+    }
+    let n = count(e);
+    if n == 0 {
+        return None;
+    }
+    let mut target = src.below(n) as isize;
+    let how = src.below(5);
+    let label = ["X | @", "@ | X", "not_null(X)", "X || X", "X && X"][how];
+    Some((apply(e, true, &mut target, how), label))
+}
